@@ -106,13 +106,18 @@ def rand_blocks(rng, n, edits, nblocks):
 def deleted_blocks(rng, seq, edits):
     """A location lying entirely inside the deleted part of deletions whose alt allele is a literal left pad (or empty):
     one block inside one such deletion, or None."""
-    cands = []
+    cands, multi = [], []
     for s, e, alt, _ in edits:
         if len(alt) < e - s and seq[s:s + len(alt)] == alt:
             lo, hi = s + len(alt), e
             for a in range(lo, hi):
                 for b in range(a + 1, hi + 1):
                     cands.append([[a, b]])
+                    # two blocks (touching or apart) inside the same deleted stretch: a multi-block location deleted entirely
+                    for c in range(b, hi):
+                        multi.append([[a, b], [c, rng.randint(c + 1, hi)]])
+    if multi and rng.random() < 0.45:
+        return rng.choice(multi)
     return rng.choice(cands) if cands else None
 
 
